@@ -433,12 +433,18 @@ func c07Pair(p *ana.Prog, r *ana.Result, hr, ut *ssa.Function, tss, tssQ *ssa.Gl
 				item := x.Value
 				blk := x.Block()
 				pushed, qvalSet := false, false
-				for i := instrIndex(x) + 1; i < len(blk.Instrs); i++ {
+				// the key the heap orders by is this request's receive timestamp when the item is
+				// pushed: the last store to item.qval in front of the push (in the composite literal,
+				// or between insert and push) is rxt64
+				for i := 0; i < len(blk.Instrs); i++ {
 					if st, ok := blk.Instrs[i].(*ssa.Store); ok {
 						ch, root := fieldChain(st.Addr)
-						if ch == "qval" && root == item && isRxt64(st.Val) {
-							qvalSet = true
+						if ch == "qval" && root == item {
+							qvalSet = isRxt64(st.Val)
 						}
+					}
+					if i <= instrIndex(x) {
+						continue
 					}
 					if c, ok := blk.Instrs[i].(*ssa.Call); ok && strings.HasPrefix(ana.CalleeName(&c.Call), "container/heap.") {
 						if ana.CalleeName(&c.Call) == "container/heap.Push" && ifaceOfGlobal(c.Call.Args[0], tssQ) {
